@@ -97,14 +97,19 @@ def make_opcond(case):
     return OperatingConditions(**kw)
 
 
-def make_snowing(case):
+def make_snowing(case, k=None):
+    """`k`: a heat-transfer dict supplied (and possibly shared) by the caller; its "s0" is set from the case"""
     from ethz_snow.snowing import Snowing
 
     fd, path = tempfile.mkstemp(suffix=".yaml", prefix="snow2d_")
     try:
         with os.fdopen(fd, "w") as f:
             yaml.safe_dump(_yaml_for(case), f)
-        S = Snowing(k={"int": 0, "ext": 0, "s0": case["K_shelf"]}, opcond=make_opcond(case), configPath=path)
+        if k is None:
+            k = {"int": 0, "ext": 0, "s0": case["K_shelf"]}
+        else:
+            k["s0"] = case["K_shelf"]
+        S = Snowing(k=k, opcond=make_opcond(case), configPath=path)
     finally:
         os.unlink(path)
     return S
@@ -193,10 +198,10 @@ def run_real(case):
     return obs
 
 
-def run_real_full(case):
+def run_real_full(case, k=None):
     """Real run returning numpy arrays (for the predicates): dict or {'raise':..}."""
     try:
-        S = make_snowing(case)
+        S = make_snowing(case, k)
     except Exception as e:
         return {"raise": core.exc_class(e), "stage": "init"}
     seed = int(case.get("seed", 0))
@@ -762,6 +767,21 @@ def observe(case, use_cache=True):
         except Exception:
             pass
     res = run_real_full(case)
+    obs = summarize(case, res)
+    if use_cache:
+        try:
+            tmp = p.with_suffix(".tmp%d" % os.getpid())
+            with gzip.open(tmp, "wt") as f:
+                json.dump(obs, f)
+            os.replace(tmp, p)
+        except Exception:
+            pass
+    return obs
+
+
+def summarize(case, res):
+    """the observation (energy accounting, boundary fluxes, bounds, decimated fields) of the arrays a run published;
+    `case` must describe THAT run (its own programme, coefficients, geometry)"""
     if res["raise"]:
         obs = {"raise": res["raise"], "stage": res.get("stage")}
     else:
@@ -799,15 +819,47 @@ def observe(case, use_cache=True):
         else:
             obs["temp"] = res["temp"].tolist()
             obs["ice"] = res["ice"].tolist()
-    if use_cache:
-        try:
-            tmp = p.with_suffix(".tmp%d" % os.getpid())
-            with gzip.open(tmp, "wt") as f:
-                json.dump(obs, f)
-            os.replace(tmp, p)
-        except Exception:
-            pass
     return obs
+
+
+def published(S, stats=None):
+    """arrays an object currently publishes, in the format of run_real_full"""
+    return {"raise": None, "S": S, "stats": stats if stats is not None else list(S._stats.values()),
+            "time": np.asarray(S._time, float), "temp": np.asarray(S._temp, float),
+            "ice": np.asarray(S._iceMassFraction, float), "shelf": np.asarray(S._shelfTemp, float),
+            "const": dict(S.const)}
+
+
+def run_shared_k(cases):
+    """one run per case, every object built from ONE shared heat-transfer dict (fresh objects, own YAML each);
+    returns the published arrays of the LAST run"""
+    k = {"int": 0, "ext": 0, "s0": cases[0]["K_shelf"]}
+    res = None
+    for c in cases:
+        res = run_real_full(c, k=k)
+        if res["raise"]:
+            return res
+    return res
+
+
+def run_repoint(case, second):
+    """one object: run, re-point `configPath` to the YAML of `second` (and set its programme), run again"""
+    S = make_snowing(case)
+    try:
+        S.run()
+        fd, path = tempfile.mkstemp(suffix=".yaml", prefix="snow2d_")
+        try:
+            with os.fdopen(fd, "w") as f:
+                yaml.safe_dump(_yaml_for(second), f)
+            S.configPath = path
+        finally:
+            os.unlink(path)
+        S.opcond = make_opcond(second)
+        S.k["s0"] = second["K_shelf"]
+        S.run()
+    except Exception as e:
+        return {"raise": core.exc_class(e), "stage": "run"}
+    return published(S)
 
 
 # ---------------------------------------------------------------------------
